@@ -52,6 +52,9 @@ type Inc struct {
 
 	OpCount map[string]int
 	ocMu    sync.Mutex
+
+	// PubMu makes "snapshot becomes visible + its close event" atomic with respect to snapshot look-ups.
+	PubMu sync.Mutex
 }
 
 func (c *Inc) Dead() bool { return c.dead.Load() }
@@ -338,12 +341,15 @@ func (s *Snaps) NewSnapshotFile(idx, term uint64, cfg []byte) (raft.SnapshotFile
 
 func (s *Snaps) SnapshotFile() (raft.SnapshotFile, error) {
 	c := s.c
+	c.PubMu.Lock()
+	pre := c.M.Now()
 	f, err := s.inner.SnapshotFile()
+	c.PubMu.Unlock()
 	if err != nil {
 		return nil, err
 	}
 	if f == nil {
-		c.emit(mon.Event{Kind: mon.KSnapOpen, Flag: false})
+		c.emit(mon.Event{Kind: mon.KSnapOpen, Flag: false, Cnt: pre})
 		return nil, nil
 	}
 	md := f.Metadata()
@@ -354,7 +360,7 @@ func (s *Snaps) SnapshotFile() (raft.SnapshotFile, error) {
 	if rerr != nil {
 		return nil, rerr
 	}
-	c.emit(mon.Event{Kind: mon.KSnapOpen, Flag: true, Idx: md.LastIncludedIndex, Term: md.LastIncludedTerm, Num: int64(len(data)), Hash: mon.HashBytes(data), Cfg: c.Net.DecodeCfg(md.Configuration)})
+	c.emit(mon.Event{Kind: mon.KSnapOpen, Flag: true, Cnt: pre, Idx: md.LastIncludedIndex, Term: md.LastIncludedTerm, Num: int64(len(data)), Hash: mon.HashBytes(data), Cfg: c.Net.DecodeCfg(md.Configuration)})
 	return &SnapFile{inner: f, c: c, ID: int(atomic.AddInt64(&snapIDs, 1))}, nil
 }
 
@@ -401,6 +407,7 @@ func (f *SnapFile) Close() error {
 	}
 	c.point("snap.close", false)
 	c.IoMu.RLock()
+	c.PubMu.Lock()
 	err := f.inner.Close()
 	if err == nil {
 		f.closed = true
@@ -410,6 +417,7 @@ func (f *SnapFile) Close() error {
 		}
 		c.emit(ev)
 	}
+	c.PubMu.Unlock()
 	c.IoMu.RUnlock()
 	c.point("snap.close", true)
 	return err
